@@ -220,6 +220,7 @@ def install(it):
             mod, qual, ordinal, fn = a[:4]
             it.invariants[(mod.name, qual, ordinal)] = {
                 'fn': fn, 'modifies': kw.get('modifies'),
+                'havoc': kw.get('havoc'),
                 'name': kw.get('name', '%s#loop%d' % (qual, ordinal))}
 
         @B('symtuple')
